@@ -1,4 +1,5 @@
-/-! Driver executable for family `processor` — placeholder until the family is built. -/
+import Whv.Driver.Processor
+/-! Driver executable for family `processor` (C01, C02, C13, C14, C03 observation gate). -/
 def main : IO UInt32 := do
-  IO.eprintln "family not built"
-  return 2
+  Whv.Driver.ProcFam.run (← IO.getStdin)
+  return 0
